@@ -30,8 +30,15 @@ INLINE_PREFIX = ("rscel::compiler::compiled_prog::", "rscel::program::program_de
 INLINE_METHODS = ("parse_expression_list", "parse_obj_inits", "check_for_const", "enter_nested", "leave_nested")
 
 
-def child_prog(k):
+# parse functions whose result is code by construction (base case CompiledProg::empty(), steps append an opcode): their children are
+# modelled as Bytecode nodes; R09.1 re-checks the claim on their own templates (induction)
+NEVER_CONST = ("parse_not_list", "parse_neg_list")
+
+
+def child_prog(k, callee=""):
     det = adt(PDET, "ProgramDetails", (U("source:%d" % k), ("set", (("splice", "params:%d" % k),)), U("astslot:%d" % k)))
+    if callee in NEVER_CONST:
+        return adt(CPROG, "CompiledProg", (adt(NODEV, "Bytecode", (prbc([("splice", "code:%d" % k)]),)), det))
     return adt(CPROG, "CompiledProg", (U("child%d.inner" % k, NODEV), det))
 
 
@@ -68,7 +75,10 @@ class CompilerPolicy(symex.Policy):
                 self._outer = outer_loop_headers(body)
             if blk in self._outer:
                 return self.root_limit
-        return 3
+            return 3
+        if body.path.startswith(CC) and "{closure" not in body.path:
+            return 3       # parse_expression_list / parse_obj_inits: up to two elements / entries
+        return 10          # builder helpers iterate over the (already bounded) concrete child vectors
 
     def inline(self, path, body):
         if path.startswith(INLINE_PREFIX):
@@ -101,7 +111,7 @@ class CompilerPolicy(symex.Policy):
                 k = sum(1 for e in st.trace if e[0] == "parse")
                 st.event("parse", k, m, tuple(render(a) for a in args[1:]))
                 dty = t.get("dty", "")
-                return [(st, ok(("tup", (child_prog(k), child_ast(k)))))]
+                return [(st, ok(("tup", (child_prog(k, m), child_ast(k)))))]
             if m == "new_label":
                 n = sum(1 for e in st.trace if e[0] == "label")
                 st.event("label", n)
